@@ -303,7 +303,8 @@ fn deserialize<'a>(ty: &OwnedDataModelType, data: &'a [u8]) -> Result<(Value, &'
                 }
             }
         }
-        OwnedDataModelType::Schema => todo!(),
+        // Schema-of-schema values have no serde_json::Value mapping yet
+        OwnedDataModelType::Schema => Err(Error::ShouldSupportButDont),
     }
 }
 
